@@ -1,7 +1,8 @@
 use crate::codegen::{ProgramCounter, Symbol, SymbolData, SymbolIndex, SymbolTable};
 use crate::parser::code_map::Span;
 use crate::parser::{
-    AddressModifier, BinaryOp, Expression, ExpressionFactor, ExpressionFactorFlags, IdentifierPath,
+    AddressModifier, BinaryExpression, BinaryOp, Expression, ExpressionFactor, ExpressionFactorFlags,
+    IdentifierPath,
     InterpolatedString, InterpolatedStringItem, Located,
 };
 use itertools::Itertools;
@@ -211,40 +212,60 @@ impl<'a> Evaluator<'a> {
                     None => Ok(None),
                 }
             }
-            Expression::BinaryExpression(bin) => {
-                let lhs = self.evaluate_expression(&bin.lhs, track_usage)?;
-                let rhs = self.evaluate_expression(&bin.rhs, track_usage)?;
-                match (lhs, rhs) {
-                    (Some(SymbolData::Number(lhs)), Some(SymbolData::Number(rhs))) => {
-                        Ok(Some(bin.op.data.apply_i64(lhs, rhs).into()))
-                    }
-                    (Some(SymbolData::String(lhs)), Some(SymbolData::String(rhs))) => {
-                        match bin.op.data.try_apply_str(lhs, rhs) {
-                            Some(result) => Ok(Some(result)),
-                            None => Err(EvaluationError {
-                                span: bin.op.span,
-                                message: format!(
-                                    "cannot apply operation '{}' on strings",
-                                    bin.op.data
-                                ),
-                            }),
-                        }
-                    }
-                    // An operand that cannot be evaluated yet: try again in the next pass
-                    (None, _)
-                    | (_, None)
-                    | (Some(SymbolData::Placeholder), _)
-                    | (_, Some(SymbolData::Placeholder)) => Ok(None),
-                    // e.g. a number and a string: no later pass can make sense of this, so don't drop it in silence
-                    _ => Err(EvaluationError {
+            Expression::BinaryExpression(_) => {
+                // `a + b + c + ...` is a chain that is nested to the left: walk down to its first operand and
+                // combine from there, instead of recursing once per operator (a few thousand terms overflow the stack)
+                let mut chain = vec![];
+                let mut first = expr;
+                while let Expression::BinaryExpression(bin) = &first.data {
+                    chain.push(bin);
+                    first = &bin.lhs;
+                }
+                let mut lhs = self.evaluate_expression(first, track_usage)?;
+                for bin in chain.into_iter().rev() {
+                    let rhs = self.evaluate_expression(&bin.rhs, track_usage)?;
+                    lhs = self.apply_binary(bin, lhs, rhs)?;
+                }
+                Ok(lhs)
+            }
+        }
+    }
+
+    fn apply_binary(
+        &self,
+        bin: &BinaryExpression,
+        lhs: Option<SymbolData>,
+        rhs: Option<SymbolData>,
+    ) -> EvaluationResult<Option<SymbolData>> {
+        match (lhs, rhs) {
+            (Some(SymbolData::Number(lhs)), Some(SymbolData::Number(rhs))) => {
+                Ok(Some(bin.op.data.apply_i64(lhs, rhs).into()))
+            }
+            (Some(SymbolData::String(lhs)), Some(SymbolData::String(rhs))) => {
+                match bin.op.data.try_apply_str(lhs, rhs) {
+                    Some(result) => Ok(Some(result)),
+                    None => Err(EvaluationError {
                         span: bin.op.span,
                         message: format!(
-                            "cannot apply operation '{}' on operands of different types",
+                            "cannot apply operation '{}' on strings",
                             bin.op.data
                         ),
                     }),
                 }
             }
+            // An operand that cannot be evaluated yet: try again in the next pass
+            (None, _)
+            | (_, None)
+            | (Some(SymbolData::Placeholder), _)
+            | (_, Some(SymbolData::Placeholder)) => Ok(None),
+            // e.g. a number and a string: no later pass can make sense of this, so don't drop it in silence
+            _ => Err(EvaluationError {
+                span: bin.op.span,
+                message: format!(
+                    "cannot apply operation '{}' on operands of different types",
+                    bin.op.data
+                ),
+            }),
         }
     }
 
